@@ -1331,7 +1331,7 @@ assignexpr(struct scope *s)
 	next();
 	r = assignexpr(s);
 	if (!op)
-		return mkassignexpr(l, r);
+		return mkassignexpr(l, exprassign(r, l->type));
 	/* rewrite `E1 OP= E2` as `T = &E1, *T = *T OP E2`, where T is a temporary slot */
 	if (l->kind == EXPRBITFIELD) {
 		bit = l;
